@@ -2,6 +2,11 @@
 # try_mutation.sh <patch.diff> <ID> [<ID>...]: apply the patch to /repo, run the quick
 # checks, undo the patch. Prints one line per check.
 P=$1; shift
+# hold the repo lock while the change is applied: checks started elsewhere wait at their build step
+mkdir -p /verif/.build
+exec 9>/verif/.build/repo.lock
+flock 9
+export VERIF_REPO_LOCK_HELD=1
 cd /repo || exit 2
 git diff --quiet || { echo "/repo has uncommitted changes"; exit 2; }
 git apply "$P" || { echo "patch does not apply"; exit 2; }
